@@ -4,7 +4,7 @@
    i.e. over every number of threads, every program (any nesting / sequence of requests with any
    (shared, blocking, reentrant) flags) and every interleaving of their atomic sections. *)
 From Coq Require Import List Bool Arith PeanoNat.
-From PV Require Import C15.Model C15.Proofs C15.PathModel C15.PathProofs C15.Users.
+From PV Require Import C15.Model C15.Proofs C15.PathModel C15.PathProofs C15.PathProgress C15.TwoPaths C15.Users.
 Import ListNotations.
 
 (* While a thread is inside an exclusive body no other thread holds the lock in any mode: every
@@ -210,6 +210,84 @@ Theorem path_no_lost_wakeup :
     preachable pof ps -> stk (tl (getp ps p)) t = ExWait r n :: rest ->
     others_hold (tl (getp ps p)) t = false -> n = true.
 Proof. exact path_no_lost_wakeup_lemma. Qed.
+
+(* ================================================================================================
+   Progress (PathProgress.v). *)
+
+(* Deadlock freedom of the WHOLE path_lock -- thread level, pools, ShareableProcessLock mutex, fcntl table -- for any
+   number of processes and threads and any assignment pof, under the guard that no thread makes a blocking exclusive
+   request while it is inside shared blocks only (preachable_g; the guard is needed because of the still open
+   C15-MUTUAL-UPGRADE-DEADLOCK): whenever some thread is inside or entering path_lock, some thread can run its next
+   atomic section.  (Lock-ordering between different paths is outside: the model is one path.) *)
+Theorem path_deadlock_free :
+  forall (pof : tid -> nat) (ps : pstate),
+    preachable_g pof ps -> (exists t, gets ps t <> []) -> exists t ps', pstep pof ps (t, PGo) = Some ps'.
+Proof. exact path_deadlock_free_lemma. Qed.
+
+(* Granted once the conflicting holders are gone, thread level, every reachable state, no guard.
+   A blocking shared request / a shared exit can run as soon as no OTHER thread is inside an exclusive body ... *)
+Theorem granted_once_conflicts_gone_sh :
+  forall (s : state) (t : tid) (f : frame) (rest : list frame),
+    reachable s -> stk s t = f :: rest -> (f = ShExit \/ exists r, f = ShReq true r) ->
+    (forall u, u <> t -> ~ In ExBody (stk s u)) -> exists s', step s (t, AGo) = Some s'.
+Proof. exact granted_sh_lemma. Qed.
+
+(* ... and a blocking exclusive request -- parked at the acquire or inside wait() -- can run, and does not go (back) to
+   waiting, as soon as no other thread holds the lock in any mode. *)
+Theorem granted_once_conflicts_gone_ex :
+  forall (s : state) (t : tid) (f : frame) (rest : list frame),
+    reachable s -> stk s t = f :: rest -> ((exists r, f = ExReq true r) \/ exists r n, f = ExWait r n) ->
+    others_hold s t = false -> exists s' o, stepo s (t, AGo) = Some (s', o) /\ o <> OWait.
+Proof. exact granted_ex_lemma. Qed.
+
+(* Path level, every reachable state, no guard.  A kernel lock request (parked in fcntl.lockf) is granted as soon as no
+   thread of ANOTHER process is inside, or still leaving, a conflicting block: for a shared request no exclusive block
+   and no pending downgrade, for an exclusive request no block at all. *)
+Theorem path_granted_once_conflicts_gone :
+  forall (pof : tid -> nat) (ps : pstate) (t : tid) (f : pframe) (rest : list pframe),
+    preachable pof ps -> gets ps t = f :: rest -> f_pc f = PLockf ->
+    (forall u g, pof u <> pof t -> In g (gets ps u) -> holds_pc (f_pc g) = true ->
+       f_sh f = true /\ f_sh g = true /\ f_pc g <> PXDown) ->
+    exists ps', pstep pof ps (t, PGo) = Some ps'.
+Proof. exact path_granted_lockf_lemma. Qed.
+
+(* The mutex of ShareableProcessLock is waited for only while a thread of the same process is parked inside fcntl.lockf. *)
+Theorem path_mutex_granted :
+  forall (pof : tid -> nat) (ps : pstate) (t : tid) (f : pframe) (rest : list pframe),
+    preachable pof ps -> gets ps t = f :: rest -> (f_pc f = PMutex \/ f_pc f = PXMutex) ->
+    (forall u g rest', pof u = pof t -> gets ps u = g :: rest' -> holds_mutex_pc (f_pc g) = false) ->
+    exists ps', pstep pof ps (t, PGo) = Some ps'.
+Proof. exact path_granted_mutex_lemma. Qed.
+
+(* Inside the thread-level part of path_lock a request moves exactly when the thread-level request does (so the two
+   thread-level theorems above apply to path_lock through path_thread_level_embedded). *)
+Theorem path_thread_granted :
+  forall (pof : tid -> nat) (ps : pstate) (t : tid) (f : pframe) (rest : list pframe) (s' : state),
+    preachable pof ps -> gets ps t = f :: rest -> (f_pc f = PThread \/ exists e, f_pc f = PXThread e) ->
+    step (tl (getp ps (pof t))) (t, AGo) = Some s' -> exists ps', pstep pof ps (t, PGo) = Some ps'.
+Proof. exact path_granted_thread_lemma. Qed.
+
+(* ================================================================================================
+   Two paths per thread (TwoPaths.v): one PathModel state per path, requests nested LIFO across the paths. *)
+
+(* A step on one path leaves everything that belongs to the other path untouched. *)
+Theorem two_paths_independent :
+  forall (pof : tid -> nat) (s : state2) (i : bool) (t : tid) (a : paction) (s' : state2),
+    step2 pof s (i, (t, a)) = Some s' -> comp s' (negb i) = comp s (negb i).
+Proof. exact two_paths_independent_lemma. Qed.
+
+(* Each component of a reachable two-path state is a reachable one-path state: every safety theorem above
+   (exclusion, kernel lock held inside bodies, exact refcounts, quiescence) holds for each of the two paths. *)
+Theorem two_paths_project :
+  forall (pof : tid -> nat) (s : state2), reachable2 pof s -> preachable pof (comp0 s) /\ preachable pof (comp1 s).
+Proof. exact two_paths_project_lemma. Qed.
+
+(* ... in particular reader-writer exclusion on each path, for threads that may hold both paths at once. *)
+Theorem two_paths_excl_excludes :
+  forall (pof : tid -> nat) (s : state2) (i : bool) (t u : tid) (f g : pframe),
+    reachable2 pof s -> In f (gets (comp s i) t) -> at_body f = true -> f_sh f = false ->
+    u <> t -> In g (gets (comp s i) u) -> at_body g = true -> False.
+Proof. exact two_paths_excl_lemma. Qed.
 
 (* ================================================================================================
    The users of path_lock (Users.v).  What the regenerated obligation `writers_take_exclusive :
